@@ -133,9 +133,10 @@ CHECKS["C10"] = {
             "thorough 20/24); read buffers 1600 and 65536; oracle wire.FrameLen: after each delivered segment exactly the frames completed so far have been returned, byte-identical, in order, one per call, n>=1, "
             "an invalid start yields an error, and a cap on results detects zero-length loops. TCPAllocation.BindConnection on a scripted conn: 6 replies x 3 trailers x whole/byte-at-a-time/every single and double cut "
             "(thorough triple): verdict independent of segmentation and trailing application bytes left unread. A class is (frame reference classes x segmentation kind x read buffer) or (reply x trailer x segmentation kind). Every (stream, segmentation, buffer) case is also run with the two other legal io.Reader behaviours of the underlying connection: the final bytes returned together with io.EOF (crypto/tls before a close_notify) - no frame may be lost - "
-            "and 8 empty (0, nil) reads before every data read (pion/dtls empty records; short streams) - same frames, and the call stack must not grow with the number of empty reads.",
+            "and 8 empty (0, nil) reads before every data read (pion/dtls empty records; short streams) - same frames, and the call stack must not grow with the number of empty reads. Part twobinds: two ConnectionBind transactions of one TCP allocation in flight: the first reply cut at every offset, the second bind (other reply kind) run completely between the two segments; each verdict is that of its own reply.",
     "parts": [A("framer", "./checks/c10", "TestC10Framer", budget={"quick": 60, "thorough": 900}),
-              A("bindreply", "./checks/c10", "TestC10BindReply", budget={"quick": 30, "thorough": 60})],
+              A("bindreply", "./checks/c10", "TestC10BindReply", budget={"quick": 30, "thorough": 60}),
+              A("twobinds", "./checks/c10", "TestC10TwoBinds", nshards=1, budget={"quick": 30, "thorough": 60})],
 }
 CHECKS["C11"] = {
     "level": "exploration",
